@@ -89,6 +89,10 @@ def gen_ops(rng, cfg, n, weights=None):
             ops.append("flush")
         elif o == "contains":
             ops.append(f"contains k={k}")
+    if live and rng.random() < 0.35:
+        # the application drops its last cache handle while it still holds entry handles
+        ops.append("dropcache2")
+        return ops
     for h in live:
         ops.append(f"drop h={h}")
     ops.append("dropcache")
@@ -287,7 +291,7 @@ def oracle_c05(h):
         if name == "ins":
             ver[kv["v"]] = (int(kv["k"]), int(kv["w"]), kv["ph"] == "1")
             hv[kv["h"]] = kv["v"]; hkind[kv["h"]] = "ins"
-        if name == "dropcache":
+        if name in ("dropcache", "dropcache2"):
             continue
         # leave events update the current versions
         for e, k, v in evs(d):
@@ -392,7 +396,7 @@ def oracle_c13(h):
         # reasons
         for e, k, v in es:
             ok = {"ins": "ERM", "resize": "E", "evict_all": "E", "flush": "E", "remove": "M", "clear": "C",
-                  "dropcache": "C", "drop": "E"}.get(name, "")
+                  "dropcache": "C", "dropcache2": "CE", "drop": "E"}.get(name, "")
             if e not in ok:
                 return (n, f"notification {e}:{k}:{v} during {name}")
             if name == "ins":
@@ -404,7 +408,7 @@ def oracle_c13(h):
                     return (n, "Remove notification during insert of an admitted entry")
             if name == "drop" and not ver.get(v, (0, False))[1]:
                 return (n, f"Evict notification for admitted entry {k}:{v} on handle drop")
-        if name != "dropcache":
+        if name not in ("dropcache", "dropcache2"):
             find = [int(x) for x in d["find"].split(",") if x]
             for k in find:
                 v = cur.get(k)
@@ -420,7 +424,7 @@ def oracle_c13(h):
         if not piped and pp:
             return (n, "pipe hand-off without a pipe")
     last = h.lines[-1][0].split()[0] if h.lines else ""
-    if last == "dropcache":
+    if last in ("dropcache", "dropcache2"):
         for v, (k, ph) in ver.items():
             c = count.get(v, [])
             if not ph and len(c) != 1:
@@ -464,7 +468,7 @@ def oracle_c18(h):
             hv.pop(kv["h"], None)
         if name == "resize":
             total_cap = int(kv["cap"])
-        if name == "dropcache":
+        if name in ("dropcache", "dropcache2"):
             continue
         hs = [x.split(":") for x in d.get("hs", "").split(",") if x]
         if sorted(x[0] for x in hs) != sorted(hv.keys()):
